@@ -17,6 +17,11 @@ RULE = ("cases = (operator, operand values, producer forms); operands from the b
 ASSUMPTIONS = ["Python int arithmetic is exact", "zero divisors and negative shift counts are excluded here (C14)"]
 PLAN = {"quick": {"triples": 160000}, "thorough": {"triples": 1200000}}
 
+REG = dict(level="exploration", min_nontrivial=1000,
+           technique="runtime reference-model monitor (Python int oracle) over seeded operand/producer sweeps with representation flag observed",
+           claim="Held on every executed (operator, operands, producer) case: each result of the real interpreter is compared with Python's exact int arithmetic; operands cross +-2^63 and are produced in machine-word and big representation. Exploration, not proof: says nothing about operand values not generated.",
+           note="Trusts CPython int arithmetic and the harness's structural value dump; is_prime/factorize operands bounded (trial division).")
+
 B63 = 1 << 63
 
 
